@@ -34,6 +34,8 @@ def cases(tier, seed):
                  aniso=(i % 3 != 0), nlevels=1 + i % 3, bf=bf, base_blocks=(1, 2) if bf == 4 else (2, 3))
         if i % 6 == 5:
             g["time"] = rng.choice([0.0, 2.0, 100.0])
+        if i % 5 == 3:      # far from the origin: coordinate / cell size of 1e5 .. 1e7
+            g["origin"] = [rng.choice([1.0e5, -3.0e5, 2.5e6]) for _ in range(3)]
         if i % 4 == 2:      # header flavour with an integer line before the time (also with whole-number times)
             g["header_int"] = [1, 0, 7][(i // 4) % 3]
         cs.append({"gen": g, "sel_seed": seed * 79 + i})
@@ -225,7 +227,11 @@ def run_one(case, work, rec, gparams, chkname, nconf):
         else:
             exp, rt = expect(m, species, gradp, reactions, floor)
             dxmin = min(min(d) for d in exp.dx)
-            probs = refmodel.compare(expected_out, exp, check_minmax=False, rtol_comps=rt, phys_tol=1e-9 * dxmin)
+            # box bounds are recomputed by the tool (origin + index x cell size): equal up to a few ulp of
+            # the coordinate, which far from the origin is more than 1e-9 cell
+            far = max(max(abs(v) for v in m.geo_low), max(abs(v) for v in m.geo_high))
+            probs = refmodel.compare(expected_out, exp, check_minmax=False, rtol_comps=rt,
+                                     phys_tol=1e-9 * dxmin + 8 * 2.220446049250313e-16 * far)
             if not probs:
                 r = refparse.parse(expected_out)
                 for lv, lev in enumerate(r["levels"]):
